@@ -49,6 +49,14 @@ class staterror_builder:
             else [0.0] * self.config.channel_nbins[channel]
         )
         moddata = self.collect(thismod, nom)
+        if len(nom) != len(moddata['uncrt']):
+            _modifier_type, _modifier_name = key.split("/")
+            raise InvalidModifier(
+                f"The '{sample}' sample {_modifier_type} modifier"
+                + f" '{_modifier_name}' has data shape inconsistent with the sample in channel '{channel}'.\n"
+                + f"{sample} has 'data' of length {len(nom)} but {_modifier_name}"
+                + f" has 'data' of length {len(moddata['uncrt'])}."
+            )
         self.builder_data[key][sample]['data']['mask'].append(moddata['mask'])
         self.builder_data[key][sample]['data']['uncrt'].append(moddata['uncrt'])
         self.builder_data[key][sample]['data']['nom_data'].append(moddata['nom_data'])
